@@ -8,6 +8,7 @@ import (
 	"flag"
 	"fmt"
 	"os"
+	"runtime/debug"
 	"sort"
 
 	"verifharness/internal/hx"
@@ -26,6 +27,8 @@ var subs = map[string]*Sub{}
 func register(s *Sub) { subs[s.Name] = s }
 
 func main() {
+	// a runaway recursion of the real code must end the process quickly (the default limit is 1 GB)
+	debug.SetMaxStack(48 << 20)
 	if len(os.Args) < 2 {
 		usage()
 	}
@@ -39,6 +42,9 @@ func main() {
 	tier := fs.String("tier", "quick", "quick|thorough")
 	out := fs.String("out", "cases.tsv", "output file")
 	replay := fs.String("replay", "", "file with scenario lines to re-run instead of generating")
+	lo := fs.Int("lo", 0, "execute only generated cases with index >= lo (the generator still draws every case)")
+	hi := fs.Int("hi", -1, "execute only generated cases with index < hi (-1 = no limit)")
+	nocorpus := fs.Bool("nocorpus", false, "skip the fixed corpus cases")
 	_ = fs.Parse(os.Args[2:])
 	w, err := hx.NewWriter(*out)
 	if err != nil {
@@ -58,7 +64,8 @@ func main() {
 			sub.Replay(line, w)
 		}
 	} else {
-		if sub.Corpus != nil {
+		caseLo, caseHi = *lo, *hi
+		if sub.Corpus != nil && !*nocorpus {
 			sub.Corpus(w)
 		}
 		sub.Gen(hx.NewRng(*seed), *n, *tier, w)
@@ -67,6 +74,16 @@ func main() {
 		fmt.Fprintln(os.Stderr, err)
 		os.Exit(2)
 	}
+}
+
+// case window for crash isolation: a sub-harness whose cases can kill the process (stack overflow) asks
+// `active()` before executing a generated case; the generator draws the same random choices regardless.
+var caseLo, caseHi, caseIdx = 0, -1, 0
+
+func active() bool {
+	i := caseIdx
+	caseIdx++
+	return i >= caseLo && (caseHi < 0 || i < caseHi)
 }
 
 func splitLines(s string) []string {
